@@ -36,7 +36,11 @@ var Props = map[string]PropRunner{
 	"C11": RunC11,
 	"C12": RunC12,
 	"C01": func(r *Run) { RunE0(r, e0Profile("C01", "C01")) },
-	"C02": func(r *Run) { RunE0(r, e0Profile("C02", "C02")) },
+	"C02": func(r *Run) {
+		p := e0Profile("C02", "C02")
+		p.Weights[opPartial] = 5
+		RunE0(r, p)
+	},
 	"C03": func(r *Run) { RunE0(r, e0Profile("C03", "C03")) },
 	"C04": func(r *Run) {
 		p := e0Profile("C04", "C04")
